@@ -124,3 +124,35 @@ pub fn run_dec(w: &[&str]) -> String {
     let list = if items.is_empty() { "-".to_string() } else { items.join(",") };
     format!("{}{} pos={}", list, tail, d.position())
 }
+
+
+/// `tokdec2 <pos> <hex>`: the three ways to obtain a tokenizer over the same bytes from position `pos`:
+/// `Decoder::tokens()` of a decoder set to `pos`, `Tokenizer::new(&bytes[pos..])`, `Tokenizer::from(decoder)`;
+/// `<transcript> | <transcript> | <transcript>` (token lists, then `end` or `err:<class>`; no positions).
+pub fn run_dec2(w: &[&str]) -> String {
+    use minicbor::decode::Tokenizer;
+    if w.len() != 2 { return "bad-op".into() }
+    let pos = match w[0].parse::<usize>() { Ok(p) => p, Err(_) => return "bad-op".into() };
+    let input = match unhex(w[1]) { Some(b) => b, None => return "bad-op".into() };
+    if pos > input.len() { return "bad-op".into() }
+    fn drain<'a, 'b>(it: impl Iterator<Item = Result<minicbor::data::Token<'b>, minicbor::decode::Error>>) -> String {
+        let mut items = Vec::new();
+        let mut tail = " end".to_string();
+        for t in it {
+            match t {
+                Ok(t) => items.push(show(&t)),
+                Err(e) => { tail = format!(" err:{}", dclass(&e)); break }
+            }
+            if items.len() > 1 << 20 { break }
+        }
+        format!("{}{}", if items.is_empty() { "-".to_string() } else { items.join(",") }, tail)
+    }
+    let mut d = Decoder::new(&input);
+    d.set_position(pos);
+    let a = drain(d.tokens());
+    let b = drain(Tokenizer::new(&input[pos ..]));
+    let mut d2 = Decoder::new(&input);
+    d2.set_position(pos);
+    let c = drain(Tokenizer::from(d2));
+    format!("{} | {} | {}", a, b, c)
+}
